@@ -9,7 +9,7 @@ The theorems show, for every reachable state (every op sequence), that each of
 the three ways stays inside the backend it was started from.  The three source
 facts they depend on are regenerated from /repo on every run.
 -/
-import SigModel.Lemmas.HubOps
+import SigModel.Lemmas.HubIso
 
 namespace SigModel.Hub
 
@@ -90,6 +90,22 @@ theorem C03_join_does_not_kick_foreign (a : Acc) (rs : String) (b req v : Nat) (
 
 /-! Non-vacuity: two backends, same room id, same user id, same Nextcloud session id. -/
 
+/-- **Isolation of everything that is written.**  Every message the hub writes to a connection is tagged
+(`Out.bk`) with the backend of the session the connection belonged to at that moment.  For every state that
+satisfies the invariant and every operation that acts on behalf of a backend `b` (`originOf`: the backend named
+in a hello or a room API call, or the backend of the session sending the request) — whatever its kind, room
+ids, user ids, Nextcloud session ids or target ids, known or guessed — every message written in the step,
+including those caused by the sessions the step closes, goes to a session of `b`: nothing reaches a
+connection of another tenant. -/
+theorem C03_isolation (h : Hub) (hi : Inv h) (op : Op) (b : Nat) (ho : originOf h op = some b) :
+    ∀ o, o ∈ (step h op).2 → ∀ b', o.bk = some b' → b' = b :=
+  step_own h op hi ho
+
+/-- … in particular after every history. -/
+theorem C03_isolation_reachable (ops : List Op) (op : Op) (b : Nat) (ho : originOf (run {} ops).1 op = some b) :
+    ∀ o, o ∈ (step (run {} ops).1 op).2 → ∀ b', o.bk = some b' → b' = b :=
+  C03_isolation _ (reachable_inv ops) op b ho
+
 private def demo : List Op :=
   [.connect 1, .connect 2, .hello 1 0 .client "alice" false false, .hello 2 1 .client "alice" false false,
    .join 1 "room" "nc1" (.ok (some ["control"]) ""), .join 2 "room" "nc1" (.ok (some ["control"]) ""),
@@ -101,6 +117,14 @@ backend 0's disinvite for the shared Nextcloud session id reach nobody on backen
 shared by all backends, so the later registration on backend 1 shadows backend 0's entry: the
 disinvite is not delivered at all — a loss, not a leak.) -/
 example : ((run {} demo).2.drop 6).map (fun outs => outs.map (·.conn)) = [[], [], [], []] := by
+  decide +kernel
+
+/-- Non-vacuity of `C03_isolation`: in the history above, bob of backend 0 joins alice's room; the step acts
+for backend 0 and writes four messages, all to backend 0. -/
+example : originOf (run {} demo).1 (.hello 3 0 .client "bob" false false) = some 0 ∧
+    ((step (step (step (run {} demo).1 (.connect 3)).1 (.hello 3 0 .client "bob" false false)).1
+      (.join 3 "room" "nc3" (.ok none ""))).2.map (fun o => (o.conn, o.bk))) =
+      [(3, some 0), (1, some 0), (3, some 0), (3, some 0)] := by
   decide +kernel
 
 end SigModel.Hub
